@@ -306,6 +306,40 @@ impl<'tcx> Cx<'tcx> {
                 }
                 J::Null
             }
+            ty::Ref(_, inner, _) if depth < 6 && matches!(inner.kind(), ty::Slice(_)) => {
+                // `&[T]` inside a constant (a table row listing several names): the elements, read out of constant memory
+                use rustc_middle::mir::interpret::GlobalAlloc;
+                let elem = match inner.kind() { ty::Slice(t) => *t, _ => return J::Null };
+                let (target, base, len): (rustc_middle::mir::interpret::AllocId, u64, u64) = match val {
+                    ConstValue::Slice { alloc_id, meta } => (alloc_id, 0, meta),
+                    ConstValue::Indirect { alloc_id, offset } => {
+                        let GlobalAlloc::Memory(alloc) = tcx.global_alloc(alloc_id) else { return J::Null };
+                        let a = alloc.inner();
+                        let psz = tcx.data_layout.pointer_size().bytes_usize();
+                        let lo = offset.bytes_usize();
+                        if lo + 2 * psz > a.len() { return J::Null; }
+                        let Some(prov) = a.provenance().ptrs().get(&offset) else { return J::Null };
+                        let rd = |from: usize| -> u64 {
+                            let bytes = a.inspect_with_uninit_and_ptr_outside_interpreter(from..from + psz);
+                            let mut x: u64 = 0;
+                            for (i, b) in bytes.iter().enumerate() { x |= (*b as u64) << (8 * i); }
+                            x
+                        };
+                        (prov.alloc_id(), rd(lo), rd(lo + psz))
+                    }
+                    _ => return J::Null,
+                };
+                let env = TypingEnv::fully_monomorphized();
+                let Ok(layout) = tcx.layout_of(env.as_query_input(elem)) else { return J::Null };
+                let esz = layout.size.bytes();
+                if len > 4096 { return J::Null; }
+                let mut fields = Vec::new();
+                for i in 0..len {
+                    let ev = ConstValue::Indirect { alloc_id: target, offset: rustc_abi::Size::from_bytes(base + i * esz) };
+                    fields.push((format!("{}", i), self.const_value_json(ev, elem, depth + 1)));
+                }
+                return J::O(vec![("fields".to_string(), J::O(fields))]);
+            }
             ty::Ref(_, inner, _) if depth < 6 => {
                 // reference to a sized constant: read through the pointer
                 if let ConstValue::Scalar(rustc_middle::mir::interpret::Scalar::Ptr(p, _)) = val {
